@@ -43,3 +43,10 @@ package handlers
 //@ func (*baseHandler).SendMessage
 //@   at-send h.commands [envelope] elem == "protocol 4.1 base64 " + ufs_b64encode(command) + ";"
 
+
+// ---- mapreduce handler end (C06) ----------------------------------------------------------
+// The handler stops only after the server's remaining aggregation data was
+// merged into the global result.
+//@ func (*MaprHandler).Shutdown
+//@   ghost-init g_flushed == 0
+//@   at-call baseHandler).Shutdown [flushed-before-stopping] g_flushed == 1
